@@ -1125,6 +1125,121 @@ struct C14 {
     shapes: Vec<Shape>,
 }
 
+// ---------------------------------------------------------------------------
+// sizes beyond 16 bits: `Map` over one Vec of 65 536 .. 200 000 elements, `RepeatWith<_, 40 000>` and
+// `RepeatWith<_, 65 537>` (closed-form expectation: element i is made from input i and the i-th random word, a
+// failure at call f stops everything after call f and is reported for element f)
+
+const BIG: usize = usize::MAX;
+
+struct Tick<'a> {
+    fail_at: Option<usize>,
+    calls: &'a std::cell::Cell<usize>,
+}
+
+#[derive(Debug)]
+struct TickErr(#[allow(dead_code)] usize);
+
+impl fmt::Display for TickErr {
+    fn fmt(&self, f: &mut fmt::Formatter<'_>) -> fmt::Result {
+        write!(f, "injected failure")
+    }
+}
+
+impl StdError for TickErr {}
+
+impl ec_core::operator::composable::Composable for Tick<'_> {}
+
+impl Operator<u64> for Tick<'_> {
+    type Output = u8;
+    type Error = TickErr;
+
+    fn apply<R: Rng + ?Sized>(&self, input: u64, rng: &mut R) -> Result<u8, TickErr> {
+        let c = self.calls.get();
+        self.calls.set(c + 1);
+        let w = rng.next_u64();
+        if self.fail_at == Some(c) {
+            return Err(TickErr(c));
+        }
+        Ok((input ^ w) as u8)
+    }
+}
+
+fn exec_big(sc: &Sc, obs: &mut Obs) -> Vec<Violation> {
+    let mut v = Vec::new();
+    let mut rng = sc.rng.build();
+    let mut model = rng.fork();
+    let calls = std::cell::Cell::new(0usize);
+    let tick = || Tick { fail_at: sc.fault, calls: &calls };
+    let n = if sc.list_len > 0 { sc.list_len } else if sc.input_seed % 2 == 0 { 40_000 } else { 65_537 };
+    let what = if sc.list_len > 0 { format!("map over a Vec of {n}") } else { format!("apply_n_times::<{n}>") };
+    let input: Vec<u64> = if sc.list_len > 0 { (0..n as u64).map(|i| i.wrapping_mul(sc.input_seed | 1)).collect() } else { vec![sc.input_seed; n] };
+    let r: Result<Result<Vec<u8>, Vec<String>>, _> = catch(|| {
+        if sc.list_len > 0 {
+            Identity.map(tick()).apply(input.clone(), &mut rng).map_err(|e| error_path(&e))
+        } else if n == 40_000 {
+            tick().apply_n_times::<40_000>().apply(sc.input_seed, &mut rng).map(|a| a.to_vec()).map_err(|e| error_path(&e))
+        } else {
+            tick().apply_n_times::<65_537>().apply(sc.input_seed, &mut rng).map(|a| a.to_vec()).map_err(|e| error_path(&e))
+        }
+    });
+    obs.hit("probe.more-than-16-bits-worth-of-elements");
+    obs.count("steps", calls.get() as u64);
+    obs.nontrivial(mix(mix(0xb16, n as u64), sc.fault.map_or(u64::MAX, |f| f as u64)));
+    let fails = sc.fault.filter(|f| *f < n);
+    let expected_calls = fails.map_or(n, |f| f + 1);
+    match r {
+        Err(p) => v.push(Violation::new("never-panics", format!("panic:big:{}", if sc.list_len > 0 { "map" } else { "repeat" }), format!("{what} panicked: {}", p.message))),
+        Ok(res) => {
+            if calls.get() != expected_calls {
+                v.push(Violation::new(
+                    "failure-stops-everything-after-it",
+                    format!("big:calls:{}", if sc.list_len > 0 { "map" } else { "repeat" }),
+                    format!("{what}, failure injected at call {:?}: the operator was applied {} times, expected {expected_calls}", sc.fault, calls.get()),
+                ));
+            }
+            if rng.draws() != expected_calls as u64 {
+                v.push(Violation::new(
+                    "random-stream-consumed-left-to-right",
+                    format!("big:draws:{}", if sc.list_len > 0 { "map" } else { "repeat" }),
+                    format!("{what}: {} random words were consumed, expected {expected_calls}", rng.draws()),
+                ));
+            }
+            match (res, fails) {
+                (Ok(out), None) => {
+                    let exp: Vec<u8> = input.iter().map(|x| (*x ^ model.next_u64()) as u8).collect();
+                    if out.len() != exp.len() {
+                        v.push(Violation::new("result-assembled-in-order", "big:length".to_string(), format!("{what}: the result has {} elements", out.len())));
+                    } else if let Some(i) = (0..n).find(|i| out[*i] != exp[*i]) {
+                        v.push(Violation::new(
+                            "result-assembled-in-order",
+                            "big:values".to_string(),
+                            format!("{what}: element {i} is {} but input {i} combined with the {i}-th random word gives {}", out[i], exp[i]),
+                        ));
+                    }
+                }
+                (Ok(out), Some(f)) => v.push(Violation::new(
+                    "error-identifies-failing-part",
+                    "big:missed-failure".to_string(),
+                    format!("{what}: call {f} failed but the result is Ok with {} elements", out.len()),
+                )),
+                (Err(path), None) => v.push(Violation::new("error-identifies-failing-part", "big:spurious-error".to_string(), format!("{what}: nothing failed but the result is the error {path:?}"))),
+                (Err(path), Some(f)) => {
+                    let want: Vec<String> = if sc.list_len > 0 { vec![format!("map[{f}]"), format!("leaf:TickErr({f})")] } else { vec![format!("leaf:TickErr({f})")] };
+                    if path != want {
+                        v.push(Violation::new(
+                            "error-identifies-failing-part",
+                            "big:error-path".to_string(),
+                            format!("{what}: call {f} failed; the error names {path:?}, expected {want:?}"),
+                        ));
+                    }
+                }
+            }
+        }
+    }
+    v
+}
+
 const MAX_FAULT: usize = 12; // every shape makes <= 11 probe calls on inputs of length <= 4
 const SEEDS_QUICK: u64 = 4_000;
 const SEEDS_THOROUGH: u64 = 400_000;
@@ -1260,6 +1375,7 @@ impl Check for C14 {
             "fault.component-fail",
             "probe.dynamic-tree",
             "probe.dynamic-tree-depth>=6",
+            "probe.more-than-16-bits-worth-of-elements",
             "probe.operator-value-applied-more-than-once",
         ]
     }
@@ -1286,6 +1402,26 @@ impl Check for C14 {
     }
 
     fn generate(&self, g: &mut Xo, tier: Tier, run: u64) -> Sc {
+        if run % 20_000 == 19_999 {
+            // sizes beyond 16 bits (see `exec_big`)
+            let list_len = if g.chance(1, 3) {
+                0
+            } else {
+                match g.below(4) {
+                    0 => 65_536,
+                    1 => 65_537,
+                    _ => g.log_uniform(65_536, 200_000),
+                }
+            };
+            let n = if list_len > 0 { list_len } else { 65_537 };
+            let fault = match g.below(5) {
+                0 => None,
+                1 => Some(n - 1 - g.urange(0, 1500).min(n - 1)), // in the last (partial) block
+                2 => Some(g.urange(0, 40)),
+                _ => Some(g.usize_below(n)),
+            };
+            return Sc { shape: BIG, fault, input_seed: g.next_u64(), list_len, rng: RngSpec::swarm(g), tree: None, more: Vec::new() };
+        }
         if run >= self.static_runs(tier) {
             return gen_dynamic(g);
         }
@@ -1311,6 +1447,9 @@ impl Check for C14 {
     }
 
     fn execute(&self, sc: &Sc, obs: &mut Obs) -> Vec<Violation> {
+        if sc.shape == BIG && sc.tree.is_none() {
+            return exec_big(sc, obs);
+        }
         // applications on ONE operator value: the first, then `more`
         let specs: Vec<(Option<usize>, u64, usize)> =
             std::iter::once((sc.fault, sc.input_seed, sc.list_len)).chain(sc.more.iter().copied()).collect();
